@@ -3,9 +3,10 @@
 // harness — generates operations for one property, runs them in-process
 // against the real code (built from /repo's working tree with -tags verif)
 // and writes
-//   <out>/ops.txt   one operation per line (the Lean driver's input)
-//   <out>/impl.txt  the implementation's canonical answer, line for line
-//   <out>/meta.json input distribution (classes hit, counts)
+//
+//	<out>/ops.txt   one operation per line (the Lean driver's input)
+//	<out>/impl.txt  the implementation's canonical answer, line for line
+//	<out>/meta.json input distribution (classes hit, counts)
 package main
 
 import (
@@ -32,6 +33,8 @@ type H struct {
 	classes map[string]int
 	tier    string
 	budget  int // scale factor: 1 quick, N thorough
+	hxCount int // round-robin over the construction modes of highXSig
+	hxLimb  int // … and over (limb, style) within its limb-perturbation mode
 }
 
 func (h *H) emit(class, op, impl string) {
